@@ -7,7 +7,7 @@ from vlib.runner import Batch
 
 ID = "C02"
 LEAN_PROPS = ["FcpptProofs.Props.C02"]
-HARNESS = {"src": "harness/c02.cpp"}
+HARNESS = {"src": "harness/c02.cpp", "repo_srcs": ["libs/core/src/insert_extract_locale.cpp", "libs/core/src/exception.cpp"]}
 TIE = ("hand-written position-threading model (FcpptModel/Model/C02.lean) proved equal to the position-free PEG semantics; "
        "differential correspondence against grammars built at run time from the real fcppt::parse templates")
 RULE = ("enum: one generated well-formed grammar (<= 3 rules, depth <= 5, every combinator and skipper kind) x ALL inputs over a "
@@ -260,7 +260,7 @@ def fmt_stats(stats):
 def batches(rng, tier):
     thorough = tier == "thorough"
     small, big = (6, 8) if thorough else (5, 6)
-    mult = 4 if thorough else 1
+    mult = 16 if thorough else 4
     st = {}
     ops = make_ops(rng.fork("eps"), 220 * mult, small, big, st, ["E"])
     yield Batch("grammars-no-skipper", ops, exhaustive=False,
